@@ -5,6 +5,7 @@ import MosnVerif.Drive.TlsTrustDrive
 import MosnVerif.Drive.TlsConnDrive
 import MosnVerif.Drive.TlsSdsDrive
 import MosnVerif.Drive.TlsAcceptDrive
+import MosnVerif.Drive.TlsShareDrive
 /-!
 Driver of C13. Case kinds (the first token after the kind is a class label computed by the generator, ignored here):
   sel|hs <cls> <ctxs> <sni> <protos>            => <index|err|nil>     GetConfigForClient directly / through a handshake
@@ -22,6 +23,7 @@ Driver of C13. Case kinds (the first token after the kind is a class label compu
   res <cls> <require> <verify> <peer> <none|clock|caswap> => ok|fail ok|fail r|f   full handshake, change, second handshake
         offering the session ticket; r = the server reports DidResume
   sdsu: one sds-backed context under configuration updates and secret pushes, see Drive/TlsSdsDrive.lean
+  shr: listeners whose sds contexts share / do not share secret names, see Drive/TlsShareDrive.lean
   odst: the accept path of a use_original_dst listener on the real handler, see Drive/TlsAcceptDrive.lean
   cconn: the real clientConnection.Connect against scripted upstreams (no downgrade), see Drive/TlsConnDrive.lean
   trust2 / trustc2: trust anchors over the host's root store and the configured ca_cert, see Drive/TlsTrustDrive.lean
@@ -221,6 +223,7 @@ def run (caseToks impl : List String) : String :=
   | "cconn" :: _, _ => MosnVerif.Drive.TlsConnDrive.run caseToks impl
   | "sdsu" :: _, _ => MosnVerif.Drive.TlsSdsDrive.run caseToks impl
   | "odst" :: _, _ => MosnVerif.Drive.TlsAcceptDrive.run caseToks impl
+  | "shr" :: _, _ => MosnVerif.Drive.TlsShareDrive.run caseToks impl
   | _, _ => MosnVerif.Drive.TlsTrustDrive.run caseToks impl
 
 end MosnVerif.Drive.C13
